@@ -28,6 +28,7 @@ import (
 func init() {
 	families["spec"] = &family{gen: genSpecCase, run: runSpecCase, prep: prepSpecCase, isolate: true}
 	families["specmut"] = &family{gen: genSpecMutCase, run: runSpecCase, prep: prepSpecCase, isolate: true}
+	families["speccat"] = &family{gen: genSpecCatCase, run: runSpecCase, prep: prepSpecCase, isolate: true}
 }
 
 func genSpecCase(rng *rand.Rand, idx int, tier string) Case {
@@ -55,6 +56,12 @@ func genSpecCase(rng *rand.Rand, idx int, tier string) Case {
 		c["via"] = "raw"
 	}
 	return c
+}
+
+// family "speccat": the rule-breaking catalogue, one entry per index (C03; also C02 C07 C09 C10 C12)
+func genSpecCatCase(rng *rand.Rand, idx int, tier string) Case {
+	doc, edits := genSpecCatalogueDoc(rng, idx, tier)
+	return Case{"doc": doc, "edits": edits, "strict": idx%3 == 0, "exotic": false, "flavour": 1, "via": "raw"}
 }
 
 var fixtureDocs []string
